@@ -53,6 +53,11 @@ def ReuseAligned : Prop :=
   ∀ n s o ls c a, getOp p n = .reuse s o ls c a →
     countT (ms.getD n []) = countT (ms.getD o []) ∧ countT (inMask p ms n) = countT (inMask p ms o)
 
+/-- … and a depthwise layer invoked again sees, at the new call site, as many alive features as
+where it is defined -/
+def ReuseDwAligned : Prop :=
+  ∀ n s o ls a, getOp p n = .reuseDw s o ls a → countT (inMask p ms n) = countT (ms.getD o [])
+
 theorem node_ops_eq_export (hdw : DwAligned p ms) (n : ℕ) (hs : (getOp p n).searchable = true) :
     nodeOps p ms false n = exportedNodeOps p ms n := by
   unfold nodeOps exportedNodeOps
@@ -90,7 +95,8 @@ theorem reuse_ops_eq_export (hre : ReuseAligned p ms) (n s o ls c : ℕ) (a : LA
 
 /-- … and the discrete `ops` cost is the operation count of the exported network (every call site
 of a layer invoked more than once charged with its own output size) -/
-theorem discrete_ops_eq_export_ops (hdw : DwAligned p ms) (hre : ReuseAligned p ms) :
+theorem discrete_ops_eq_export_ops (hdw : DwAligned p ms) (hre : ReuseAligned p ms)
+    (hrd : ReuseDwAligned p ms) :
     costOps p ms false = exportedOps p ms := by
   unfold costOps exportedOps
   congr 1
@@ -99,6 +105,12 @@ theorem discrete_ops_eq_export_ops (hdw : DwAligned p ms) (hre : ReuseAligned p 
   cases hs : (getOp p n).searchable
   · cases hop : getOp p n with
     | reuse s o ls c a => exact reuse_ops_eq_export p ms hre n s o ls c a hop
+    | reuseDw s o ls a =>
+      have h := hrd n s o ls a hop
+      unfold nodeOps exportedNodeOps planOf
+      rw [hop]
+      simp only [keptIdx_length]
+      rw [h]; ring
     | _ =>
       unfold nodeOps exportedNodeOps
       obtain ⟨h1, h2⟩ := node_params_not_searchable p ms n hs
@@ -135,6 +147,20 @@ theorem reuseAligned_of_supported (l : List ℕ) (α : ℕ → List Rat) (hl : c
       unfold inMask; rw [hop]; rfl
     rw [hino, hinn, h1, h2]
     exact ⟨rfl, rfl⟩
+  · unfold getOp at hop
+    rw [List.getD_eq_getElem?_getD, List.getElem?_eq_none (by omega)] at hop
+    cases hop
+
+theorem reuseDwAligned_of_supported (l : List ℕ) (α : ℕ → List Rat) (hl : computeLabels p = some l)
+    (hws : wellShaped p = true) (hsup : supported p = true) :
+    ReuseDwAligned p (aliveMasks p l α) := by
+  intro n s o ls a hop
+  by_cases hn : n < p.length
+  · have hop' : p[n] = .reuseDw s o ls a := by rw [← getOp_eq p n hn]; exact hop
+    obtain ⟨h1, h2⟩ := C09.reused_depthwise_sites_tied p l α hl hws hsup n s o ls a hn hop'
+    have hinn : inMask p (aliveMasks p l α) n = (aliveMasks p l α).getD s [] := by
+      unfold inMask; rw [hop]; rfl
+    rw [hinn, ← h1, h2]
   · unfold getOp at hop
     rw [List.getD_eq_getElem?_getD, List.getElem?_eq_none (by omega)] at hop
     cases hop
